@@ -682,6 +682,12 @@ class NPShim:
 
     def _argext(self, which, x, axis):
         x = to_obj(unwrap(x))
+        try:        # all entries are numbers: nothing to ask
+            nums = np.array([float(v.const()) if isinstance(v, Rat) else float(v) for v in np.asarray(x, dtype=object).flat]).reshape(np.shape(x))
+            if not np.isnan(nums).any():
+                return (np.argmax if which == "argmax" else np.argmin)(nums, axis=axis)
+        except (TypeError, ValueError, AttributeError):
+            pass
         if axis is None or not is_arr(x) or x.ndim == 1:
             return self.it.ask(Cond(which, x), kind=int)
         moved = np.moveaxis(x, axis, -1)
@@ -730,7 +736,7 @@ _CMPOPS = {
     ast.Gt: operator.gt, ast.GtE: operator.ge,
 }
 
-_SAFE_NATIVE = (str, dict, list, tuple, set, range, type(None), int, bool)
+_SAFE_NATIVE = (str, bytes, dict, list, tuple, set, range, type(None), int, bool)
 
 
 def _entry(method):
@@ -1254,6 +1260,8 @@ class Interp:
         b = self.builtins().get(name)
         if b is not None:
             return b
+        if name == "__name__":
+            return env.module.rel[:-3].replace("/", ".")
         raise Unsupported("unknown name %s" % name)
 
     def builtins(self):
@@ -1351,7 +1359,7 @@ class Interp:
                 "getattr": b_getattr, "dict": dict, "set": set, "sorted": sorted, "reversed": reversed,
                 "round": b_round, "ValueError": "ValueError", "TypeError": "TypeError", "map": map,
                 "super": "super", "object": object, "complex": complex, "NotImplemented": NotImplemented,
-                "callable": callable, "repr": repr, "divmod": divmod, "pow": lambda a, b: it.binop(ast.Pow(), a, b),
+                "callable": callable, "repr": repr, "divmod": divmod, "slice": slice, "filter": filter, "bytes": bytes, "pow": lambda a, b: it.binop(ast.Pow(), a, b),
             }
             self._type_alias = {id(self._BUILTINS[n]): t for n, t in (("float", float), ("int", int), ("list", list), ("tuple", tuple), ("bool", bool))}
         return self._BUILTINS
